@@ -128,8 +128,22 @@ func c07Generate(c *mon.Ctx) {
 		}
 	}
 
+	// the object as its own argument, or meeting an equal / opposite value, from every Montgomery-structured start value
+	// (a doubling or a sum that lands in [n, 2^256) without wrapping)
+	for i, v := range gen.MontStructured(n) {
+		via := mon.SelfVias[i%len(mon.SelfVias)]
+		if via == "add-to-zero" && v.X.Sign() == 0 {
+			via = "add-self"
+		}
+
+		mv := mon.PlanScalarMoveFrom(via, hr, v.X)
+		mv2 := mon.PlanScalarMoveFrom("add-self", hr, v.X)
+		c.Structured(func() any { return &c07Case{Kind: "encode", In: mv.To, Class: "moved:" + mv.Via, Move: &mv} })
+		c.Structured(func() any { return &c07Case{Kind: "encode", In: mv2.To, Class: "moved:" + mv2.Via, Move: &mv2} })
+	}
+
 	g := mon.H(oracle.Bytes32(big.NewInt(0xabcdef)))
-	for _, s := range []string{g, strings.ToUpper(g), g[:len(g)-1], "0x" + g, g + " ", "zz" + g[2:], "", g + g, mon.H(oracle.Bytes32(n)), mon.H(oracle.Bytes32(new(big.Int).Sub(n, big.NewInt(1))))} {
+	for _, s := range []string{g + "0", g + "f", g + "00", "0" + g, "00" + g, g[:len(g)-2], g, strings.ToUpper(g), g[:len(g)-1], "0x" + g, g + " ", "zz" + g[2:], "", g + g, mon.H(oracle.Bytes32(n)), mon.H(oracle.Bytes32(new(big.Int).Sub(n, big.NewInt(1))))} {
 		s := s
 		c.Structured(func() any { return &c07Case{Kind: "hex", In: s, Class: "hex"} })
 	}
